@@ -41,7 +41,20 @@ SPECS = {
 
 
 def run(tier="quick", seed=0):
-    return run_property(PROPERTY, SPECS, tier, seed)
+    from pyvc import frame
+
+    r = run_property(PROPERTY, SPECS, tier, seed,
+                     bounded_standins=["result at exit plane k == run truncated after that slice, entrance plane == incident wave: bounded/c07.py"])
+    # entrance plane == incident wave for *every* configuration: the wave is re-initialised from the incident wave before its
+    # first use (the entrance-plane detection) in each pass of the configuration loop, and every detection is inside that loop
+    for o in (frame.loop_reset("abtem/multislice.py", "multislice_and_detect", 0, "waves", PROPERTY, "entrance-plane-sees-the-incident-wave"),
+              frame.calls_inside_loop("abtem/multislice.py", "multislice_and_detect", "_update_measurements", 0, PROPERTY,
+                                      "every-detection-inside-the-configuration-loop")):
+        r["obligations"].append(o)
+        if o.get("function"):
+            r["functions"].append(o["function"])
+    r["trusted_base"] = list(r["trusted_base"]) + ["frame analysis (pyvc/frame.py): freshness rules; Waves.copy() returns an independent copy (ASSUMED)"]
+    return r
 
 
 def native_replay(case):
